@@ -17,17 +17,18 @@ Definition value_of_event (e : event) : value :=
   | EDrift a r => VL [VZ 2; VZ a; VZ r]
   end.
 
-Fixpoint events_of_values (l : list value) : option (list event) :=
+(* Do events carry the virtual time since the beginning of their round: [0 c dt] *)
+Fixpoint events_of_values (l : list value) : option (list event * list Z) :=
   match l with
-  | [] => Some []
+  | [] => Some ([], [])
   | v :: r =>
       match events_of_values r with
       | None => None
-      | Some es =>
+      | Some (es, dts) =>
           match v with
-          | VL [VZ 0; VZ c] => Some (EDo c :: es)
-          | VL [VZ 1; VZ d] => Some (ESleep d :: es)
-          | VL [VZ 2; VZ a; VZ x] => Some (EDrift a x :: es)
+          | VL [VZ 0; VZ c; VZ dt] => Some (EDo c :: es, dt :: dts)
+          | VL [VZ 1; VZ d] => Some (ESleep d :: es, dts)
+          | VL [VZ 2; VZ a; VZ x] => Some (EDrift a x :: es, dts)
           | _ => None
           end
       end
@@ -51,6 +52,7 @@ Definition src_alts (timeout : Z) (v : value) : option (list src) :=
       else if k =? 1 then Some [Failed]
       else if k =? 2 then (if timeout <? d then Some [Failed] else None)
       else if k =? 3 then Some [Failed]
+      else if k =? 4 then Some [Failed]     (* ignores its context, comes back long after the deadline *)
       else None
   | _ => None
   end.
@@ -95,19 +97,27 @@ Definition round_has_kind0 (v : value) : bool :=
 (* sync.run / sync.extreme.
    args: mode dval refbits peerbits cutoff timeout interval nref npeer rounds
      mode 0: the real clocks.SystemClock with configured drift dval ns/s; mode 1: a scripted clock whose Drift returns dval
-   observed: panicked, events in order ([0 c] = Do c, [1 d] = Sleep d, [2 a r] = Drift(a) = r, [3 _] = any other clock call)
+   observed: panicked, events in order ([0 c dt] = Do c, dt ns of virtual time after the round began, [1 d] = Sleep d, [2 a r] = Drift(a) = r, [3 _] = any other clock call)
    strict: the bound of the property at full strength - every correction within the peer cap, also when the caps exceed 2^62 ns *)
+(* the observation without the time stamps of the Do events *)
+Definition strip (o : list value) : list value :=
+  match o with
+  | [VZ opan; VL oevs] => match events_of_values oevs with Some (es, _) => [VZ opan; VL (map value_of_event es)] | None => o end
+  | _ => o
+  end.
+
 Definition judge_run (strict : bool) (a o : list value) : option verdict :=
     match a with
     | [VZ mode; VZ dval; VZ rb; VZ pb; VZ cutoff; VZ timeout; VZ interval; VZ nref; VZ npeer; VL rounds] =>
         let nr := Z.to_nat nref in let np := Z.to_nat npeer in
         let cfg := mkcfg (f_of_bits rb) (f_of_bits pb) cutoff timeout interval in
         let D := if mode =? 0 then sysclk_drift dval interval else dval in
-        let oracle_of (env : bool) (rs : list rnd) (opan : Z) (es : list event) : bool :=
+        let oracle_of (env : bool) (rs : list rnd) (opan : Z) (esd : list event * list Z) : bool :=
+          let '(es, dts) := esd in
           let drift_ok :=
             if mode =? 0 then forallb (fun e => match e with EDrift x r => C01_drift_ok dval x r | _ => true end) es
             else true in
-          C01_ok_env env cfg nr np rs (negb (opan =? 0), es) && drift_ok &&
+          C01_ok_env env cfg nr np rs (negb (opan =? 0), es) && drift_ok && C01_deadline_ok timeout dts &&
           (if strict then forallb (fun e => match e with EDo c => within c (cap (c_peer cfg) D) | _ => true end) es else true) in
         if (timeout =? 0) && ((0 <? npeer) || existsb round_has_kind0 rounds) then
           (* SyncTimeout = 0: the context of a round is over when it is created; whether an immediately answering
@@ -133,7 +143,7 @@ Definition judge_run (strict : bool) (a o : list value) : option verdict :=
             match o with
             | [VZ opan; VL oevs] =>
                 match events_of_values oevs with
-                | Some es => Some (functional expected o (oracle_of true rs opan es))
+                | Some es => Some (functional expected [VZ opan; VL (map value_of_event (fst es))] (oracle_of true rs opan es))
                 (* an observation that is not a sequence of Do / Sleep / Drift events (the harness writes [3 _] for
                    any other call of the clock, which Run never makes): the oracle cannot be evaluated and is left
                    true; the model comparison fails (the expected sequence has only kinds 0, 1, 2), so the case is
@@ -146,7 +156,7 @@ Definition judge_run (strict : bool) (a o : list value) : option verdict :=
             (* ties at the deadline: the model agrees if one resolution reproduces the observation, the oracle
                accepts if the observation is correct for one resolution *)
             let agrees (rs : list rnd) :=
-              let '(pan, evs) := run cfg D nr np rs in values_eqb [vbool pan; VL (map value_of_event evs)] o in
+              let '(pan, evs) := run cfg D nr np rs in values_eqb [vbool pan; VL (map value_of_event evs)] (strip o) in
             match o with
             | [VZ opan; VL oevs] =>
                 match events_of_values oevs with
